@@ -286,7 +286,14 @@ func (h *SSEHandler) ServeHTTP(w http.ResponseWriter, req *http.Request) {
 	if h.onConnection != nil {
 		h.onConnection(ss)
 	}
-	defer ss.Close() // close the transport when the GET exits
+	defer func() {
+		// The hanging GET is the only channel to the client: once it has
+		// exited, no response to an outstanding server->client call can ever
+		// arrive. End the read side first (failing such calls), as the graceful
+		// Close below would otherwise wait for them forever.
+		(&sseServerConn{t: transport}).Close()
+		ss.Close() // close the transport when the GET exits
+	}()
 
 	select {
 	case <-req.Context().Done():
